@@ -1,11 +1,11 @@
 SPECIFICATION Spec
 CONSTANTS
-  Cons <- BindDeep
+  Cons <- ForIn
   Terms = {"semi"}
-  MaxE = 0
-  MaxS = 1
-  MaxX = 3
-  MaxP = 0
+  MaxE = 2
+  MaxS = 3
+  MaxX = 1
+  MaxP = 1
   MaxL = 0
   MaxTop = 1
 CHECK_DEADLOCK FALSE
